@@ -216,12 +216,18 @@ def run(ctx):
     ikesa = prog.cls('ikesa.IkeSa')
     live = set()
     nest = 0
+    succ_state = ('attr', ('attr', ('param', 'self'), 'new_ike_sa'), 'state')
     for fi in ikesa.methods.values():
+        if not isinstance(fi.node, ast.FunctionDef):
+            continue
         gg = esc.add_exception_edges(fi)
+        # by value term: `self.new_ike_sa.state = ...` also when the successor is held in a local
+        sv_ = ctx.sval(fi)
+        bases = {succ_state[1]} | {strip_ids(v) for t, v, pc, st, _ in sv_.stores if strip_ids(t) == succ_state[1]}
+        est_stmts = {id(st) for t, v, pc, st, _ in sv_.stores if strip_ids(t)[0] == 'attr' and strip_ids(t)[2] == 'state'
+                     and strip_ids(t)[1] in bases and tq.text(v).endswith('State.ESTABLISHED')}
         for n in gg.nodes:
-            if n.kind == 'stmt' and isinstance(n.ast, ast.Assign) and any(
-                    src(t) == 'self.new_ike_sa.state' for t in n.ast.targets) \
-                    and common.state_name(n.ast.value) == 'ESTABLISHED':
+            if n.kind == 'stmt' and isinstance(n.ast, ast.Assign) and id(n.ast) in est_stmts:
                 nest += 1
                 arriving = ts.states_at(fi, n)
                 for (s2, k) in ts.flow_from(fi, n, arriving):
